@@ -540,13 +540,6 @@ Section Main.
     apply G; try assumption. lia.
   Qed.
 
-  Lemma kdf_input_ok i u a b : i < 256 -> u < 256 -> a < 256 -> fst b < 256 -> snd b < 256 ->
-    bytes_ok (kdf_input i (0, u) (0, a) b) = true /\ length (kdf_input i (0, u) (0, a) b) = 8%nat.
-  Proof.
-    intros. split; [|reflexivity]. unfold kdf_input. cbn [fst snd].
-    repeat (apply bytes_ok_cons; split; [lia|]). reflexivity.
-  Qed.
-
   Theorem kdf_b kbpk : bytes_ok kbpk = true -> (length kbpk = 16 \/ length kbpk = 24)%nat ->
     b_derive cd ca kbpk = Ok (spec_kdf_b cd kbpk).
   Proof.
